@@ -683,7 +683,8 @@ def duplicate_components(ctx, modules, rule="LINT-l"):
         par = parent(node)
         if isinstance(par, ast.Subscript) and par.slice is node:
           continue
-        txt = [unparse(_strip_default(e)) for e in node.elts if any(isinstance(x, (ast.Call, ast.Attribute)) for x in ast.walk(_strip_default(e)))]
+        # (constants and enum members may repeat legitimately in a table row; a repeated *computation* is the slip)
+        txt = [unparse(_strip_default(e)) for e in node.elts if any(isinstance(x, ast.Call) for x in ast.walk(_strip_default(e)))]
         dup = sorted({t for t in txt if txt.count(t) > 1})
         what = "component"
       elif isinstance(node, ast.Dict):
@@ -696,4 +697,88 @@ def duplicate_components(ctx, modules, rule="LINT-l"):
                 f"`{short(node, 90)}` lists the {what} `{dup[0]}` twice: " +
                 ("the later entry silently replaces the earlier one" if what == "key" else
                  "the repetition stands where a different component belongs, so values that differ only in that component are treated as the same"))
+  return n
+
+
+# (n) -------------------------------------------------------------------------------------
+def bare_break_in_item_loop(ctx, funcs, rule="LOOP-break", exempt=None):
+  """`for item in collection: ... if <test on the item>: break` where the branch does nothing but leave the loop
+  (logging aside): the first item that meets the test also ends the processing of every item after it.  A loop
+  that *searches* looks different - it records what it found before it leaves, or its variable is read after the
+  loop, or it has an `else:` - and a loop over input that ends at a sentinel tests the item against None /
+  emptiness.  Everything else is a `continue` that was written as `break`."""
+  n = 0
+  for f in funcs:
+    for loop in own_nodes(f.node):
+      if not isinstance(loop, ast.For) or loop.orelse:
+        continue
+      if isinstance(loop.iter, ast.Call) and unparse(loop.iter.func).split(".")[-1] in ("count", "cycle", "repeat"):
+        continue          # an endless iterator: leaving by `break` is the only way out
+      targets = {x.id for x in ast.walk(loop.target) if isinstance(x, ast.Name)}
+      # flags: names that the loop body assigns only the constants True / False (an inner loop sets one, the outer test reads it)
+      stores = {}
+      for st in loop.body:
+        for x in ast.walk(st):
+          if isinstance(x, ast.Assign) and len(x.targets) == 1 and isinstance(x.targets[0], ast.Name):
+            stores.setdefault(x.targets[0].id, []).append(isinstance(x.value, ast.Constant) and isinstance(x.value.value, bool))
+          elif isinstance(x, ast.Name) and isinstance(x.ctx, ast.Store) and not isinstance(getattr(x, "_parent", None), ast.Assign):
+            stores.setdefault(x.id, []).append(False)
+      assigned = {k for k, v in stores.items() if v and all(v)}
+      # is a loop variable (or a local derived from it in the body) read after the loop?  (search / prefix idiom: the item at which
+      # the loop stopped is the result)
+      derived = set(targets)
+      for st in loop.body:
+        for x in ast.walk(st):
+          if isinstance(x, ast.Assign) and len(x.targets) == 1 and isinstance(x.targets[0], ast.Name) and any(isinstance(y, ast.Name) and y.id in derived for y in ast.walk(x.value)):
+            derived.add(x.targets[0].id)
+      after = False
+      par = parent(loop)
+      for fld in ("body", "orelse", "finalbody"):
+        blk = getattr(par, fld, None)
+        if isinstance(blk, list) and any(x is loop for x in blk):
+          idx = [id(x) for x in blk].index(id(loop))
+          for st in blk[idx + 1:]:
+            if any(isinstance(x, ast.Name) and x.id in derived and isinstance(x.ctx, ast.Load) for x in ast.walk(st)):
+              after = True
+      def nearest_loop(node):
+        cur = parent(node)
+        while cur is not None and not isinstance(cur, (ast.For, ast.While, ast.FunctionDef, ast.AsyncFunctionDef)):
+          cur = parent(cur)
+        return cur
+      # a loop that records what it found before it leaves (`found = item; break`) is a search: there a bare break on an item test
+      # is a skipped candidate; without a recording break, a variable of the loop that is read afterwards marks the prefix / index idiom
+      recording = False
+      for b_ in own_nodes(loop):
+        if isinstance(b_, ast.Break) and nearest_loop(b_) is loop:
+          blk = next((getattr(parent(b_), fld) for fld in ("body", "orelse") if isinstance(getattr(parent(b_), fld, None), list) and any(x is b_ for x in getattr(parent(b_), fld))), [])
+          if any(isinstance(x, (ast.Assign, ast.AugAssign, ast.Return)) for x in blk):
+            recording = True
+      if after and not recording:
+        continue
+      for br in own_nodes(loop):
+        if not isinstance(br, ast.If):
+          continue
+        body = [s for s in br.body if not (isinstance(s, ast.Expr) and isinstance(s.value, ast.Call) and "LOGGER" in unparse(s.value.func).upper())]
+        if not (len(body) == 1 and isinstance(body[0], ast.Break)) or nearest_loop(body[0]) is not loop:
+          continue
+        n += 1
+        test = br.test
+        names = {x.id for x in ast.walk(test) if isinstance(x, ast.Name)}
+        # sentinel: `item is None`, `not item`, `item == ""`
+        t = test.operand if isinstance(test, ast.UnaryOp) and isinstance(test.op, ast.Not) else test
+        sentinel = (isinstance(t, ast.Name) and t.id in targets) or \
+          (isinstance(t, ast.Compare) and len(t.ops) == 1 and isinstance(t.left, ast.Name) and t.left.id in targets and isinstance(t.comparators[0], ast.Constant) and t.comparators[0].value in (None, "", b""))
+        flag = bool(names) and names <= (assigned - targets)
+        key = f"{f.qualname}|for {unparse(loop.target)} in {short(loop.iter, 40)}|if {short(test, 50)}: break"
+        if sentinel or flag:
+          ctx.ok(rule, key, ctx.where(f.module, br), "end-of-input sentinel" if sentinel else "propagates a flag set in the loop body")
+          continue
+        why = (exempt or {}).get(f.qualname)
+        if why:
+          ctx.ok(rule, key + "|tabled", ctx.where(f.module, br), "tabled: " + why)
+          continue
+        ctx.unit(f.module)
+        ctx.bad(rule, key, ctx.where(f.module, br),
+                f"`if {short(test, 60)}: break` leaves the loop over `{short(loop.iter, 40)}` without recording anything: the first item that meets the test ends the processing of "
+                f"all items after it (a skipped item calls for `continue`)")
   return n
